@@ -131,6 +131,8 @@ def script_of(events, base_guards=0):
         pre = ' > '.join(ctxs)
         txt = None
         if e.kind == 'call' and e.callee.startswith(NOTABLE_PREFIX) and e.callee not in PURE:
+            if isinstance(e.extra, dict) and e.extra.get('inlined'):
+                continue  # a helper unknown to the vocabulary: its body's effects follow
             txt = S.show(e.term)
         elif e.kind == 'assign':
             txt = '%s = %s' % (S.show(e.lhs), S.show(e.term))
